@@ -29,12 +29,12 @@ from .c09 import write_cfg
 
 GRAMMARS = {
     "g1": 'r = { ASCII_HEX_DIGIT+ ~ ("x" | "yy" | "zz") ~ (NEWLINE | ASCII_ALPHA_UPPER)? }\nWHITESPACE = _{ " " | "\\t" }\n',
-    "g2": 'r = { (!"b" ~ ANY)* ~ PUSH("b" | ASCII_DIGIT) ~ (POP ~ ASCII_HEX_DIGIT | PEEK ~ "c") ~ h* ~ EOI }\nh = @{ ASCII_HEX_DIGIT{2} }\nCOMMENT = _{ "#" }\n',
+    "g2": 'r = { x ~ PUSH("b" | ASCII_DIGIT) ~ (POP ~ ASCII_HEX_DIGIT | PEEK ~ "c") ~ h* ~ EOI }\nx = @{ (!("b" | "9" | "#") ~ ANY)* }\nh = @{ ASCII_HEX_DIGIT{2} }\nCOMMENT = _{ "#" }\n',
     "g3": 'r = { s ~ ("," ~ s)* ~ !ANY }\ns = ${ #t = w | (ASCII_DIGIT | "_")+ }\nw = { ASCII_ALPHA+ }\n',
 }
 CASES = {
     "g1": {"ok": ("r", "a f 09 yy A", 0), "fail": ("r", "a f 09 yz", 0)},
-    "g2": {"ok": ("r", "xx#x.bb9#1f#2e", 0), "fail": ("r", "xx.bb9#1g", 0)},
+    "g2": {"ok": ("r", "xx.x.bb9#1f#2e", 0), "fail": ("r", "xyz..99#1g", 0)},
     "g3": {"ok": ("r", "..ab,12_,c", 2), "fail": ("r", "ab,12,,c", 0)},
 }
 OPTS = {"none": "none", "default": None, "custom": ["squash_choice", "inline built-in"]}
@@ -215,6 +215,8 @@ def schedules_part(rep, pest, events, thorough):
     scenarios.append(("g1|default|interp", lambda: make(pest, "g1", "default"), [("g1", "ok"), ("g1", "fail")]))
     # shared generated module
     scenarios.append(("g2|none|gen", lambda: M.Generated(make(pest, "g2", "none").generate()), [("g2", "ok"), ("g2", "fail")]))
+    # shared optimized interpreter whose rules hold a SkipUntil node, two different inputs
+    scenarios.append(("g2|default|interp", lambda: make(pest, "g2", "default"), [("g2", "ok"), ("g2", "fail")]))
     # shared unoptimized interpreter (Identifier._pure / regex caches), same call twice
     scenarios.append(("g3|none|interp", lambda: make(pest, "g3", "none"), [("g3", "ok"), ("g3", "ok")]))
     total = 0
@@ -235,11 +237,14 @@ def schedules_part(rep, pest, events, thorough):
         _, sb = run_scheduled([lambda p=pf: digest(pest, p, CASES[calls[1][0]][calls[1][1]])], [], pest_dir)
         s1, s2 = sa[0], sb[0]
         stride = max(1, max(s1, s2) // (12 if not thorough else 60))
-        cfg = write_cfg(f"Reentrancy_{g}", "Spec", {"Threads": "{1, 2}", "S1": s1, "S2": s2, "S3": 0, "Stride": stride, "P": 2}, invariants=["SameAsSequential", "Emit"])
         scheds = set()
-        st = C.run_tlc("Reentrancy", cfg, on_line=lambda ln: scheds.add(normalise(C.decode_printt(ln)["sched"])), workers=4, tag=f"Reentrancy_{g}", timeout=1800)
-        C.require_tlc_ok(st, "Reentrancy")
-        rep.add_tlc(st, f"Reentrancy {name}: S1={s1} S2={s2} stride={stride} P=2: SameAsSequential; {len(scheds)} schedules")
+        # two preemptions on a coarse lattice, and ONE preemption at (almost) every step: a thread paused in the middle of any
+        # method of a shared object while the other runs through to the end
+        for pp, sd in ((2, stride), (1, 2 if not thorough else 1)):
+            cfg = write_cfg(f"Reentrancy_{g}_{pp}", "Spec", {"Threads": "{1, 2}", "S1": s1, "S2": s2, "S3": 0, "Stride": sd, "P": pp}, invariants=["SameAsSequential", "Emit"])
+            st = C.run_tlc("Reentrancy", cfg, on_line=lambda ln: scheds.add(normalise(C.decode_printt(ln)["sched"])), workers=4, tag=f"Reentrancy_{g}_{pp}", timeout=1800)
+            C.require_tlc_ok(st, "Reentrancy")
+            rep.add_tlc(st, f"Reentrancy {name}: S1={s1} S2={s2} stride={sd} P={pp}: SameAsSequential")
         for sc in sorted(scheds):
             p = factory()  # fresh object: lazy caches empty
             jobs = [(lambda c=c, p=p: digest(pest, p, CASES[c[0]][c[1]])) for c in calls]
@@ -265,10 +270,12 @@ def schedules_part(rep, pest, events, thorough):
     try:
         p = make(pest, "g1", "default")
         gm = M.Generated(make(pest, "g2", "none").generate())
+        p2 = make(pest, "g2", "default")
         rounds = 60 if not thorough else 600
         for _ in range(rounds):
-            out = [None] * 4
-            jobs = [("g1|default|interp|ok", p, CASES["g1"]["ok"]), ("g1|default|interp|fail", p, CASES["g1"]["fail"]), ("g2|none|gen|ok", gm, CASES["g2"]["ok"]), ("g2|none|gen|fail", gm, CASES["g2"]["fail"])]
+            out = [None] * 6
+            jobs = [("g1|default|interp|ok", p, CASES["g1"]["ok"]), ("g1|default|interp|fail", p, CASES["g1"]["fail"]), ("g2|none|gen|ok", gm, CASES["g2"]["ok"]), ("g2|none|gen|fail", gm, CASES["g2"]["fail"]),
+                    ("g2|default|interp|ok", p2, CASES["g2"]["ok"]), ("g2|default|interp|fail", p2, CASES["g2"]["fail"])]
             ths = [threading.Thread(target=lambda i=i, j=j: out.__setitem__(i, digest(pest, j[1], j[2]))) for i, j in enumerate(jobs)]
             for t in ths:
                 t.start()
